@@ -157,9 +157,26 @@ structure ReinitOut where
   st : NodeSt
   out : Outcome
 
-/-- `reinitDKG`: nothing if the round exists; otherwise replay, register the `reinit_dkg` operation (whose payload lists
+/-- `reinitDKG` as the pinned tree had it (kept for `Props/C18ReinitReject.lean`): nothing if the round exists; otherwise replay, register the `reinit_dkg` operation (whose payload lists
 the collected operations), write the new communication keys into the round and save it under `dkg_id` -/
+def reinitDKGPinned (st : NodeSt) (req : ReinitReq) (now : Time) (payloadOf : Tasks.Msg → Bytes) : ReinitOut :=
+  if (lookupS st.rounds req.dkgId).isSome then { st := st, out := .ok } else
+  let (st1, ops) := reinitLoop st.self req.dkgId st.skipVerify now payloadOf st req.inner
+  let op : NOp := ⟨"reinit_dkg", req.dkgId, .reinitOps (ops.map (·.type))⟩
+  match putOperation st1 op with
+  | none => { st := st1, out := .reject }
+  | some st2 =>
+    match getInstance st2 req.dkgId with
+    | none => { st := st2, out := .reject }
+    | some (_, inst) =>
+      let keys := req.participants.foldl (fun acc nk => assocSet acc nk.1 nk.2) inst.payload.pubKeys
+      { st := saveFSM st2 req.dkgId (inst.dumpState, { inst.payload with pubKeys := keys }), out := .ok }
+
+/-- `reinitDKG` since the fix "a re-initialisation message without a round id left a pending operation behind": a file
+whose `dkg_id` is empty after trimming is refused before anything is touched (no round can be created under such an id:
+`getInstance`) -/
 def reinitDKG (st : NodeSt) (req : ReinitReq) (now : Time) (payloadOf : Tasks.Msg → Bytes) : ReinitOut :=
+  if blankId req.dkgId then { st := st, out := .reject } else
   if (lookupS st.rounds req.dkgId).isSome then { st := st, out := .ok } else
   let (st1, ops) := reinitLoop st.self req.dkgId st.skipVerify now payloadOf st req.inner
   let op : NOp := ⟨"reinit_dkg", req.dkgId, .reinitOps (ops.map (·.type))⟩
